@@ -743,7 +743,7 @@ def r15(ctx):
             if not g.static:
                 continue
             grows = [st for st in g.events('STORE') if st.rhs is not None and callee_of(unwrap(st.rhs)) == 'qb_array_grow']
-            if grows and any(ev.e is not None and estr(ev.e) == estr(grows[0].lhs) for ev in g.returns()):
+            if grows and any(ev.e is not None and estr(unwrap(ev.e)) == estr(grows[0].lhs) for ev in g.returns()):
                 finders.append(g.name)
         if not finders:
             raise AnalysisBroken('R15: %s: no slot finder that passes on the result of qb_array_grow' % unit)
